@@ -55,19 +55,20 @@ def lzma2_prop(dict_size: int) -> int:
     raise ValueError(dict_size)
 
 
-def _encode(coder: bytes, data: bytes, dict_size: int | None = None):
+def _encode(coder: bytes, data: bytes, dict_size: int | None = None, declared_dict: int | None = None):
     """-> (packed bytes, coder properties or None).  ``dict_size``: dictionary the encoder really uses *and* declares (LZMA: any 32-bit
-    value; LZMA2: rounded up to the next expressible size); default 64 KiB."""
+    value; LZMA2: rounded up to the next expressible size); default 64 KiB.  ``declared_dict``: the size written into the coder properties
+    when it is larger than the one used (what `7z -mx=9` declares for small inputs: a decoder with a larger window decodes the same bytes)."""
     if coder == COPY:
         return data, None
     if coder == LZMA:
         dict_size = dict_size or 1 << 16
         packed = lzma.compress(data, format=lzma.FORMAT_RAW, filters=[{"id": lzma.FILTER_LZMA1, "dict_size": dict_size, "lc": 3, "lp": 0, "pb": 2}])
-        return packed, bytes([0x5D]) + struct.pack("<I", dict_size)
+        return packed, bytes([0x5D]) + struct.pack("<I", max(dict_size, declared_dict or 0))
     if coder == LZMA2:
         prop = lzma2_prop(dict_size or 1 << 16)
         packed = lzma.compress(data, format=lzma.FORMAT_RAW, filters=[{"id": lzma.FILTER_LZMA2, "dict_size": lzma2_dict_sizes(40)[prop]}])
-        return packed, bytes([prop])
+        return packed, bytes([max(prop, lzma2_prop(declared_dict)) if declared_dict else prop])
     if coder == AES:
         return data, bytes([0x13, 0x00])    # declared only: content is not really encrypted
     raise ValueError(coder)
@@ -110,7 +111,7 @@ def _streams_info(pack_pos: int, folders: list[dict], with_crc: bool, substreams
 
 def make_7z(entries: list[dict], *, coder: bytes = LZMA, layout: str = "solid", with_crc: bool = True, with_attrs: bool = True,
             encoded_header: bool = False, mixed_coders: list[bytes] | None = None, header_coder: bytes = LZMA,
-            dict_size: int | None = None, with_substreams: bool = True, bare_empty: bool = False) -> bytes:
+            dict_size: int | None = None, with_substreams: bool = True, bare_empty: bool = False, declared_dict: int | None = None) -> bytes:
     """entries: [{"name": str, "data": bytes | None (directory), "empty_stream": optional override, "phantom": bool, "attr": optional int,
                  "declared_size": optional int}]
 
@@ -142,7 +143,7 @@ def make_7z(entries: list[dict], *, coder: bytes = LZMA, layout: str = "solid", 
     for gi, g in enumerate(groups):
         c = mixed_coders[gi % len(mixed_coders)] if mixed_coders else coder
         raw = b"".join(e["data"] for e in g)
-        packed, props = _encode(c, raw, dict_size)
+        packed, props = _encode(c, raw, dict_size, declared_dict)
         folders.append({"coder": c, "props": props, "packed": packed, "files": [e["data"] for e in g],
                         "sizes": [e["declared_size"] if e.get("declared_size") is not None else len(e["data"]) for e in g]})
     packed_all = b"".join(f["packed"] for f in folders)
@@ -169,7 +170,7 @@ def make_7z(entries: list[dict], *, coder: bytes = LZMA, layout: str = "solid", 
     header += fi + b"\x00"
     header = bytes(header)
     if encoded_header:
-        hp, hprops = _encode(header_coder, header)
+        hp, hprops = _encode(header_coder, header, None, declared_dict)
         hf = [{"coder": header_coder, "props": hprops, "packed": hp, "files": [header]}]
         # encoded header = PackInfo + UnpackInfo only (no SubStreamsInfo)
         enc = b"\x17" + _streams_info(len(packed_all), hf, with_crc=True, substreams=False) + b"\x00"
